@@ -287,9 +287,26 @@ fn compute_deltas(
     let tolerance = 0.5;
 
     // Contour (aka Simple) and Composite both need gvar
-    var_model
+    let deltas = var_model
         .deltas(point_seqs)
-        .map_err(|e| Error::GlyphDeltaError(glyph_name.clone(), e))?
+        .map_err(|e| Error::GlyphDeltaError(glyph_name.clone(), e))?;
+
+    // gvar deltas are 16-bit; rounding a larger one into an i16 saturates silently
+    let fits = |v: f64| (i16::MIN as f64..=i16::MAX as f64).contains(&(v + 0.5).floor());
+    // (the default region's "deltas" are the default master's values, not deltas)
+    if let Some(delta) = deltas
+        .iter()
+        .filter(|(region, _)| !region.is_default())
+        .flat_map(|(_, deltas)| deltas.iter())
+        .find(|d| !fits(d.x) || !fits(d.y))
+    {
+        return Err(Error::OutOfBounds {
+            what: format!("variation delta of glyph '{glyph_name}'"),
+            value: format!("({}, {})", delta.x, delta.y),
+        });
+    }
+
+    deltas
         .into_iter()
         .map(|(region, deltas)| {
             // Spec: inferring of deltas for un-referenced points applies only
